@@ -1,11 +1,12 @@
 #!/venv/bin/python
 """tools/benign_prompts.py [ids...] : prompts for sub-agents that produce behaviour-preserving changes
 (/tmp/seedtools/benign_<ID>.txt; worktree /tmp/ben-<ID>; output /tmp/ben-out/<ID>/b1..b3.diff)."""
-import json, shutil, sys
+import json, os, shutil, sys
 from pathlib import Path
 V = Path("/verif"); T = Path("/tmp/seedtools"); T.mkdir(exist_ok=True)
 shutil.copy(V / "tools/run_baseline.py", T / "run_baseline.py"); shutil.copy(V / "harness/luastub.py", T / "luastub.py")
 tmpl = (V / "tools/benign_prompt.txt").read_text()
+R = os.environ.get("BROUND", "")   # "" = first round (/tmp/ben-*), "2" = /tmp/ben2-* ...
 ids = sys.argv[1:] or [f"C{i:02d}" for i in range(1, 21)]
 for line in (V / "properties.jsonl").read_text().splitlines():
     d = json.loads(line); pid = d["id"]
@@ -14,6 +15,6 @@ for line in (V / "properties.jsonl").read_text().splitlines():
     text = (f"{pid}: {d.get('title')}\n\nStatement: {d.get('statement')}\n\nQuantified over: {q.get('text')}\n\n"
             f"Code anchors: {json.dumps(a.get('files', []))}\nMechanisms: {json.dumps(a.get('mechanism', []))}\n"
             f"State: {json.dumps(a.get('state', []))}\nObserved at: {json.dumps(a.get('observe_at', []))}\n")
-    p = tmpl.replace("{WT}", f"/tmp/ben-{pid}").replace("{OUT}", f"/tmp/ben-out/{pid}").replace("{PROP}", text)
-    (T / f"benign_{pid}.txt").write_text(p); Path(f"/tmp/ben-out/{pid}").mkdir(parents=True, exist_ok=True)
+    p = tmpl.replace("{WT}", f"/tmp/ben{R}-{pid}").replace("{OUT}", f"/tmp/ben{R}-out/{pid}").replace("{PROP}", text)
+    (T / f"benign{R}_{pid}.txt").write_text(p); Path(f"/tmp/ben{R}-out/{pid}").mkdir(parents=True, exist_ok=True)
 print("ok", ids)
